@@ -14,7 +14,7 @@ use crate::props::common::*;
 use crate::props::{c13, c14};
 use serde_json::{json, Value};
 
-pub const RULE: &str = "fault sequences: tables driven to Full; cuckoo kick budgets {0,1,2,5,20,500,none} so inserts fail after any number of evictions; unions where self has F free places and other brings M > F new fingerprints (failure at first / middle / last transferred fingerprint, all three required by hook events). Observables recorded before every insert/union and compared after every Err; non-trivial = a failing insert or union whose pre/post comparison ran; distinct = distinct (config, history, failing op index) hashes";
+pub const RULE: &str = "fault sequences: tables driven to Full; cuckoo kick budgets {0,1,2,5,20,500,none} so inserts fail after any number of evictions; unions where self has F free places and other brings M > F new fingerprints (failure at first / middle / last transferred fingerprint, all three required by hook events). quotient filters with 2^10..2^13 slots whose union overshoots the capacity by 1..len/1000+3 elements; observables recorded before every insert/union and compared after every Err; non-trivial = a failing insert or union whose pre/post comparison ran; distinct = distinct (config, history, failing op index) hashes";
 pub const ASSUMPTIONS: &[&str] = &[
     "deletable counts are measured on clones (clone independence is C19's business and cross-checked there)",
     "cuckoo continuation is judged against the multiset-of-classes model because eviction choices after a failed call may legitimately differ (RNG advanced)",
@@ -530,6 +530,75 @@ fn qf_item(ctx: &Ctx, i: usize, rep: &mut Report) {
     let _ = c13::RULE;
 }
 
+/// big quotient filters: a union that overshoots the capacity by only a few elements (fails at one
+/// of the last transferred fingerprints after thousands of successful transfers)
+fn qf_large_item(ctx: &Ctx, i: usize, rep: &mut Report) {
+    let mut r = FastRng::new(ctx.sub_seed(&[3, i as u64]));
+    let q = *r.pick(&[10usize, 11, 12, 13]);
+    let cfg = QfCfg { q, r: *r.pick(&[8usize, 20, 40]), bh: CtlBuildHasher::new(HMode::Mix, r.next()) };
+    let label = cfg.label();
+    rep.config(&label);
+    let len = cfg.slots();
+    let over = 1 + r.below((len as u64 / 1000).max(1) + 3) as usize; // overshoot by 1..len/1000+3
+    let m_other = (len / 40 + r.below(len as u64 / 4) as usize).max(over + 1);
+    let f_self = len + over - m_other;
+    let keys_self: Vec<u64> = (0..f_self).map(|_| r.next()).collect();
+    let keys_other: Vec<u64> = (0..m_other).map(|_| r.next()).collect();
+    // observation universe: samples of both key sets plus never-inserted probes
+    let mut universe: Vec<u64> = vec![];
+    for _ in 0..150 {
+        universe.push(*r.pick(&keys_self));
+        universe.push(*r.pick(&keys_other));
+        universe.push(r.next());
+    }
+    universe.extend(keys_other.iter().take(60));
+    universe.extend(keys_other.iter().rev().take(60));
+    let res = guarded(|| -> Option<(String, String)> {
+        let mut a = cfg.make();
+        let mut b = cfg.make();
+        for k in &keys_self {
+            let _ = Flt::insert(&mut a, *k);
+        }
+        for k in &keys_other {
+            let _ = Flt::insert(&mut b, *k);
+        }
+        let pre = observe(&a, &universe);
+        let pre_b = observe(&b, &universe);
+        let res = Flt::union(&mut a, &b);
+        let post_b = observe(&b, &universe);
+        if let Some((s, w)) = diff(&pre_b, &post_b, &universe) {
+            return Some((format!("C12/qf/union-modified-other/{}", s), w));
+        }
+        if res.is_err() {
+            rep.count("failed_large_unions_compared", 1);
+            let post = observe(&a, &universe);
+            if let Some((s, w)) = diff(&pre, &post, &universe) {
+                return Some((format!("C12/qf/failed-union/{}", s), format!("union of a filter with {} and one with {} elements (capacity {}) returned Err but {}", Flt::len(&a), Flt::len(&b), len, w)));
+            }
+            // a later insert must still work as before the failed call
+            let before = Flt::len(&a);
+            let probe = r.next();
+            let ins = Flt::insert(&mut a, probe);
+            if before < len && ins.is_err() {
+                return Some(("C12/qf/continuation-diverges/insert-after-failed-union".into(), format!("after the failed union an insert into a filter with {} of {} slots used failed", before, len)));
+            }
+        } else {
+            rep.count("large_unions_that_fitted(class collisions)", 1);
+        }
+        None
+    });
+    rep.evaluations += (f_self + m_other) as u64;
+    match res {
+        Ok(None) => {
+            let mut h = CaseHash::new(&label);
+            h.push(i as u64);
+            rep.nontrivial(h.0);
+        }
+        Ok(Some((sig, what))) => rep.violation(sig, format!("{}: {}", label, what), json!({"config": cfg, "self_elements": f_self, "other_elements": m_other, "capacity": len, "overshoot": over, "item": i})),
+        Err(msg) => rep.violation(format!("C12/panic/qf-union/{}", panic_class(&msg)), format!("{}: panicked: {}", label, msg), json!({"config": cfg, "self_elements": f_self, "other_elements": m_other, "item": i})),
+    }
+}
+
 pub fn run(ctx: &Ctx) -> Report {
     let n = match (ctx.tier, ctx.is_dbg()) {
         (Tier::Quick, false) => 16_000,
@@ -538,6 +607,7 @@ pub fn run(ctx: &Ctx) -> Report {
         (Tier::Thorough, true) => 12_000,
     };
     let mut rep = par_run(ctx, n, |i, rep| match i % 4 {
+        _ if i % 200 == 199 => qf_large_item(ctx, i, rep),
         0 => cuckoo_item(ctx, i, false, rep),
         1 | 2 => cuckoo_item(ctx, i, true, rep),
         _ => qf_item(ctx, i, rep),
